@@ -1027,3 +1027,160 @@ theorem parseLine_ok (st : Stmt) (paren : Bool) (hv : validStmt st = true)
       · have hpa := parseAliases_ok false true (a :: as) hne hal'
         simp only [List.map_cons] at hpa
         simp [bodyToks, hpa]
+
+/-! ## sets, sorting, grouping -/
+
+theorem mem_dedup {α} [DecidableEq α] (a : α) (l : List α) : a ∈ dedup l ↔ a ∈ l := by
+  induction l with
+  | nil => simp [dedup]
+  | cons b bs ih =>
+    unfold dedup
+    split
+    · rename_i hb
+      rw [ih]
+      constructor
+      · exact fun h => List.mem_cons_of_mem _ h
+      · intro h
+        simp at h
+        rcases h with rfl | h
+        · exact hb
+        · exact h
+    · simp [ih]
+
+theorem nodup_dedup {α} [DecidableEq α] (l : List α) : (dedup l).Nodup := by
+  induction l with
+  | nil => simp [dedup]
+  | cons b bs ih =>
+    unfold dedup
+    split
+    · exact ih
+    · rename_i hb
+      rw [List.nodup_cons]
+      exact ⟨fun h => hb ((mem_dedup b bs).mp h), ih⟩
+
+theorem insertBy_perm {α} (le : α → α → Bool) (a : α) (l : List α) : (insertBy le a l).Perm (a :: l) := by
+  induction l with
+  | nil => simp [insertBy]
+  | cons b bs ih =>
+    unfold insertBy
+    split
+    · exact List.Perm.refl _
+    · exact (List.Perm.cons b ih).trans (List.Perm.swap a b bs)
+
+theorem isort_perm {α} (le : α → α → Bool) (l : List α) : (isort le l).Perm l := by
+  induction l with
+  | nil => exact List.Perm.refl _
+  | cons a as ih =>
+    simp only [isort]
+    exact (insertBy_perm le a _).trans (List.Perm.cons a ih)
+
+theorem filter_or_perm {α} (p q : α → Bool) (l : List α) (hd : ∀ x ∈ l, ¬ (p x = true ∧ q x = true)) :
+    (l.filter p ++ l.filter q).Perm (l.filter fun x => p x || q x) := by
+  induction l with
+  | nil => simp
+  | cons a as ih =>
+    have ih' := ih (fun x hx => hd x (List.mem_cons_of_mem _ hx))
+    have ha := hd a (by simp)
+    cases hp : p a <;> cases hq : q a
+    · simpa [List.filter_cons, hp, hq] using ih'
+    · simp only [List.filter_cons, hp, hq, Bool.false_eq_true, if_false, if_true, Bool.or_true]
+      exact List.perm_middle.trans (List.Perm.cons a ih')
+    · simp only [List.filter_cons, hp, hq, Bool.false_eq_true, if_false, if_true, Bool.or_false, List.cons_append]
+      exact List.Perm.cons a ih'
+    · exact absurd ⟨hp, hq⟩ ha
+
+/-- grouping a list by a key, over a duplicate-free list of keys, permutes the elements whose key is listed -/
+theorem group_perm {α κ} [DecidableEq κ] (key : α → κ) (S : List α) (K : List κ) (hK : K.Nodup) :
+    (K.flatMap fun k => S.filter fun i => key i = k).Perm (S.filter fun i => decide (key i ∈ K)) := by
+  induction K with
+  | nil => simp
+  | cons k ks ih =>
+    rw [List.nodup_cons] at hK
+    have ih' := ih hK.2
+    simp only [List.flatMap_cons]
+    refine (List.Perm.append_left _ ih').trans ?_
+    refine (filter_or_perm _ _ S ?_).trans ?_
+    · intro x _ ⟨h1, h2⟩
+      simp only [decide_eq_true_eq] at h1 h2
+      rw [h1] at h2
+      exact hK.1 h2
+    · apply List.Perm.of_eq
+      apply List.filter_congr
+      intro x _
+      simp [List.mem_cons]
+
+theorem stmtOf_imports (imps : List Imp) (st : Stmt) (h : stmtOf imps = .ok st)
+    (hrt : ∀ i ∈ imps, Imp.fromSplit i.split = i) : st.imports = imps := by
+  cases imps with
+  | nil => simp [stmtOf] at h
+  | cons i is =>
+    simp only [stmtOf] at h
+    split at h
+    · rename_i hall
+      injection h with h
+      subst h
+      simp only [Stmt.imports, List.map_map]
+      simp only [List.all_eq_true, decide_eq_true_eq] at hall
+      conv => rhs; rw [← List.map_id (i :: is)]
+      apply List.map_congr_left
+      intro j hj
+      simp only [Function.comp, id]
+      rw [← hall j hj]
+      exact hrt j hj
+    · cases h
+
+theorem groupStmts_imports (g : List Imp) (sts : List Stmt) (h : groupStmts g = .ok sts)
+    (hrt : ∀ i ∈ g, Imp.fromSplit i.split = i) : (sts.flatMap Stmt.imports).Perm g := by
+  unfold groupStmts at h
+  simp only [bind, Except.bind, pure, Except.pure] at h
+  split at h
+  · cases h
+  · have hpart : (g.filter (fun i => decide (i.importAs = star)) ++ g.filter (fun i => decide (i.importAs ≠ star))).Perm g := by
+      have := List.filter_append_perm (fun i : Imp => decide (i.importAs = star)) g
+      refine List.Perm.trans ?_ this
+      apply List.Perm.of_eq
+      congr 1
+      apply List.filter_congr
+      intro x _
+      simp
+    by_cases hs : g.filter (fun i => decide (i.importAs = star)) = []
+    · by_cases hn : g.filter (fun i => decide (i.importAs ≠ star)) = []
+      · simp only [hs, hn, if_true] at h
+        injection h with h
+        subst h
+        rw [hs, hn] at hpart
+        simpa using hpart
+      · simp only [hs, hn, if_true, if_false] at h
+        cases hso : stmtOf (isort impLe (g.filter (fun i => decide (i.importAs ≠ star)))) with
+        | error e => rw [hso] at h; cases h
+        | ok s =>
+          rw [hso] at h
+          injection h with h
+          subst h
+          have hp := isort_perm impLe (g.filter (fun i => decide (i.importAs ≠ star)))
+          have := stmtOf_imports _ s hso (fun i hi => hrt i (List.mem_filter.mp (hp.mem_iff.mp hi)).1)
+          simp only [List.nil_append, List.flatMap_cons, List.flatMap_nil, List.append_nil, this]
+          rw [hs] at hpart
+          exact hp.trans (by simpa using hpart)
+    · cases hsa : stmtOf (g.filter (fun i => decide (i.importAs = star))) with
+      | error e => simp only [hs, if_false, hsa] at h; cases h
+      | ok sa =>
+        have hia := stmtOf_imports _ sa hsa (fun i hi => hrt i (List.mem_filter.mp hi).1)
+        by_cases hn : g.filter (fun i => decide (i.importAs ≠ star)) = []
+        · simp only [hs, hn, if_true, if_false, hsa] at h
+          injection h with h
+          subst h
+          simp only [List.append_nil, List.flatMap_cons, List.flatMap_nil, hia]
+          rw [hn] at hpart
+          simpa using hpart
+        · simp only [hs, hn, if_false, hsa] at h
+          cases hso : stmtOf (isort impLe (g.filter (fun i => decide (i.importAs ≠ star)))) with
+          | error e => rw [hso] at h; cases h
+          | ok s =>
+            rw [hso] at h
+            injection h with h
+            subst h
+            have hp := isort_perm impLe (g.filter (fun i => decide (i.importAs ≠ star)))
+            have := stmtOf_imports _ s hso (fun i hi => hrt i (List.mem_filter.mp (hp.mem_iff.mp hi)).1)
+            simp only [List.cons_append, List.nil_append, List.flatMap_cons, List.flatMap_nil, List.append_nil, this, hia]
+            exact (List.Perm.append_left _ hp).trans hpart
